@@ -10,7 +10,7 @@ sys.path.insert(0, str(V))
 TEXT = {
     "C01": ("header-gate cube, read script, read-primitive contract, CRC gate (boolean structure), payload slice, single consumer, what read() can return, socket wrapper FIFO and chunk-decoder conservation (shared C11/C12)",
             "behaviour of the caller-supplied stream object (read(n) returns <= n bytes in order)"),
-    "C02": ("sync set, UBX/NMEA skip scripts, interval analysis of every read request (EOF discipline), loop exits",
+    "C02": ("sync set, UBX/NMEA skip scripts, interval analysis of every read request (EOF discipline), loop exits, MSM mask-map layout (shared C09-D1/D2), decoder free of cross-parse state (shared C13-D1)",
             "socket/buffered stream behaviour (C11); inputs outside the property's class"),
     "C03": ("extraction bit-slice normal form, per-type value by partial evaluation, scaling, naming, offset threading, group/optional semantics, derived counts; table typing",
             "floating-point rounding of val*resolution; whether table widths are the standard's (C10)"),
